@@ -63,6 +63,16 @@ def _decode_path(path):
     return path.replace('/', osp.sep)
 
 
+def _rebind_self(dsp):
+    # A sub-dispatcher inherits the `sh.SELF` default of the model, i.e. the
+    # model's dispatcher: range assemblers would read the absent cells from
+    # whatever the model calculated last instead of from `dsp` itself.
+    if sh.SELF in dsp.default_values:
+        dsp.default_values[sh.SELF] = dict(
+            dsp.default_values[sh.SELF], value=dsp
+        )
+
+
 def _book2dict(book):
     res = {}
     for ws in book.worksheets:
@@ -585,6 +595,7 @@ class ExcelModel:
         dsp.default_values = {
             k: v for k, v in dsp.default_values.items() if k not in inp
         }
+        _rebind_self(dsp)
 
         res = dsp()
 
@@ -592,6 +603,7 @@ class ExcelModel:
             outputs, graph=dsp.dmap, reverse=True, blockers=res,
             wildcard=False
         )
+        _rebind_self(dsp)
 
         for k, v in res.items():
             if k in dsp.data_nodes and k not in dsp.default_values:
